@@ -429,6 +429,12 @@ func (m *Machine) Eval(e *Expr) (Value, error) {
 		return v, nil
 	case ENull:
 		return Value{}, ErrModel
+	case ERaw:
+		if e.RawErr {
+			return Value{}, ErrModel
+		}
+		m.unknown = true
+		return Value{}, nil
 	case EParen:
 		return m.Eval(e.L)
 	case ENeg:
